@@ -51,11 +51,17 @@ struct HistHarness : eng::Harness {
     Case special; if (generate_special(mode, ch, idx, special)) return special;
     Profile pf = profile_for(mode); Gen g(ch, pf);
     if (mode == "C13") { gen_option_prefix(g, idx); g.pf.min_ops += (int)g.out.size(); g.pf.max_ops += (int)g.out.size(); }
-    if (mode == "C09") { g.out.push_back(Op("opt").s("name", "visit_abandoned").u("v", 1)); g.census_ok = true; g.subprocs = true;
+    bool c09_quiesce = false;
+    if (mode == "C09") { g.out.push_back(Op("opt").s("name", "visit_abandoned").u("v", 1)); g.census_ok = true; c09_quiesce = true;
       if (ch.chance(1, 2)) g.out.push_back(Op("opt").s("name", "abandoned_reclaim_on_free").u("v", 1)); if (ch.chance(1, 3)) g.out.push_back(Op("opt").s("name", "disallow_arena_alloc").u("v", 1)); if (ch.chance(1, 4)) g.out.push_back(Op("opt").s("name", "max_segment_reclaim").u("v", 100));
-      g.out.push_back(Op("subproc").u("i", 0)); if (ch.chance(1, 3)) g.out.push_back(Op("subproc").u("i", 1)); g.pf.min_ops += 5; g.pf.max_ops += 5; }
+      if (ch.chance(1, 3)) { g.out.push_back(Op("opt").s("name", "target_segments_per_thread").u("v", ch.chance(1, 2) ? 2 : 4)); g.forced = true; }
+      if (ch.chance(1, 2)) { g.subprocs = true; g.out.push_back(Op("subproc").u("i", 0)); if (ch.chance(1, 3)) g.out.push_back(Op("subproc").u("i", 1)); }
+      else if (ch.chance(1, 2)) g.forced = true;   // (mi_collect_reduce ops)
+      if (g.forced) g.out.push_back(Op("cfg").u("forced", 1));   // forced abandonment (option or mi_collect_reduce) may occur: attribution-dependent clauses are off from the start
+      g.pf.min_ops += 7; g.pf.max_ops += 7; }
     if ((mode == "C12" && ch.chance(1, 2)) || mode == "C13") { g.out.push_back(Op("opt").s("name", "visit_abandoned").u("v", 1)); g.census_ok = true; g.pf.min_ops++; g.pf.max_ops++; }
     Case c = g.history();
+    if (c09_quiesce) c.push_back(Op("quiesce"));
     return c;
   }
   void execute(const std::string& mode, const Case& c, Result& r) override {
